@@ -1,5 +1,5 @@
 \* (quick tier, histories <= 2) as built: the operational touched-set bookkeeping equals the declarative read-after-write conflict
-CONSTANTS CopyOnLookup = FALSE SympyCopies = TRUE LibIds = {1,2,3,4,5,6,7,8,9} MaxReq = 2
+CONSTANTS CopyOnLookup = FALSE SympyCopies = TRUE LibIds = {1,2,3,4,5,6,7,8,9,10,11} MaxReq = 2
           Backends = {"flatten","casadi","sympy","xml"}
 INIT Init
 NEXT Next
